@@ -51,7 +51,6 @@ KEY_TRI = "upper-triangle at time_1 != 0: CustomSD.correlation_2d_integral vs in
 KEY_ETA0 = ("eta_function(0) != 0 (cancellation in the thermal integrand, hot sub-ohmic bath): "
             "upper-triangle at time_1 = 0 vs integration of correlation()")
 
-EPSREL = 2.0 ** -26          # oqupy.config.INTEGRATE_EPSREL
 EPSABS = 1.49e-8             # scipy.integrate.quad default epsabs (the code does not override it)
 
 
@@ -274,6 +273,111 @@ def closed_form_T0_exp(alpha, zeta, wc, tau):
     return 2 * alpha * wc ** (1 - zeta) * special.gamma(zeta + 1) * (1 / wc + 1j * tau) ** (-(zeta + 1))
 
 
+# --- late times with the library's DEFAULT quadrature arguments ---------------------------
+# cutoff * tau where the unchanged code still converges with its default epsrel / subdiv_limit
+# (measured: 'hard' exact up to cutoff*tau = 1500, 'exponential' to 1e-14 up to 60, 'gaussian'
+# exact up to 400; beyond that QUADPACK already reports failure on the unchanged tree)
+LATE_POINTS = [
+    # alpha, zeta, wc, cutoff type, T/wc, [cutoff*tau ...]
+    (0.3, 1.0, 5.0, "hard", 0.0, [1250.0, 1500.0]),
+    (0.3, 3.0, 5.0, "hard", 0.2, [1500.0]),
+    (0.3, 1.0, 5.0, "exponential", 0.0, [30.0, 60.0]),
+    (0.5, 1.0, 2.0, "gaussian", 0.0, [200.0, 400.0]),
+]
+LATE_CELLS = [
+    # alpha, zeta, wc, cutoff type, T/wc, dt, [(shape, time_1, time_2)]
+    (0.3, 1.0, 5.0, "hard", 0.0, 0.1, [("square", 250.0, None), ("rectangle", 300.0, 300.3)]),
+]
+GENEROUS = {"epsrel": 1e-10, "subdiv_limit": 4000}
+
+
+def closed_form_T0_hard_ohmic(alpha, wc, tau):
+    """C(tau) = 2 alpha int_0^wc w e^(-i w tau) dw = 2 alpha [e^(-i wc tau)(1 + i wc tau) - 1]/tau^2"""
+    return 2 * alpha * (np.exp(-1j * wc * tau) * (1 + 1j * wc * tau) - 1) / tau ** 2
+
+
+def oracle_late(stream):
+    """yields (key, payload or None): calls made with the DEFAULT epsrel / subdiv_limit vs the
+    same call with explicit generous ones (and the T=0 closed forms)"""
+    from oqupy.bath_correlations import PowerLawSD
+    for (alpha, zeta, wc, ct, t_over, xs) in LATE_POINTS:
+        obj = PowerLawSD(alpha, zeta, wc, ct, t_over * wc)
+        for x in xs:
+            tau = x / wc + 0.0137
+            with stream("late-default"):
+                v = complex(obj.correlation(tau))
+            with stream("late-generous"):
+                r = complex(obj.correlation(tau, **GENEROUS))
+            refs = {"same call with epsrel=1e-10, subdiv_limit=4000": r}
+            if t_over == 0.0 and ct == "hard" and zeta == 1.0:
+                refs["closed form"] = complex(closed_form_T0_hard_ohmic(alpha, wc, tau))
+            if t_over == 0.0 and ct == "exponential":
+                refs["closed form"] = complex(closed_form_T0_exp(alpha, zeta, wc, tau))
+            # the two library calls agree to 1e-12 on the unchanged tree; the closed form is met
+            # only up to scipy's default epsabs (observed 2e-8 relative for the exponential cutoff)
+            bad = {k: [z.real, z.imag] for k, z in refs.items()
+                   if abs(v - z) > (1e-8 * abs(z) if k != "closed form" else 1e-6 * abs(z) + 4 * EPSABS)}
+            key = "late-time correlation() with default epsrel/subdiv_limit: %s cutoff" % ct
+            yield key, (None if not bad else {
+                "class": "PowerLawSD", "alpha": alpha, "zeta": zeta, "cutoff": wc, "cutoff_type": ct,
+                "temperature": t_over * wc, "tau": tau, "cutoff*tau": x,
+                "correlation(tau)": [v.real, v.imag], "references_missed": bad,
+                "how": "obj.correlation(tau) with the default arguments vs the listed references "
+                       "(1e-8 relative for the explicit-argument call, where the unchanged code agrees to "
+                       "1e-12; 1e-6 + 4 epsabs for the closed form)"})
+    for (alpha, zeta, wc, ct, t_over, dt, cells) in LATE_CELLS:
+        obj = PowerLawSD(alpha, zeta, wc, ct, t_over * wc)
+        for (shape, t1, t2) in cells:
+            with stream("late-default"):
+                v = complex(obj.correlation_2d_integral(dt, t1, t2, shape))
+            with stream("late-generous"):
+                r = complex(obj.correlation_2d_integral(dt, t1, t2, shape, **GENEROUS))
+            terms = eta_terms(obj, shape, dt, t1, t2)
+            tol = 1e-7 * abs(r) + 1e-12 * terms
+            key = "late-time %s cell with default epsrel/subdiv_limit: %s cutoff" % (shape, ct)
+            yield key, (None if abs(v - r) <= tol else {
+                "class": "PowerLawSD", "alpha": alpha, "zeta": zeta, "cutoff": wc, "cutoff_type": ct,
+                "temperature": t_over * wc, "shape": shape, "delta": dt, "time_1": t1, "time_2": t2,
+                "default_arguments": [v.real, v.imag], "epsrel=1e-10,subdiv_limit=4000": [r.real, r.imag],
+                "difference": abs(v - r), "allowed": tol,
+                "how": "obj.correlation_2d_integral(delta, time_1, time_2, shape) with the default "
+                       "arguments vs the same call with epsrel=1e-10, subdiv_limit=4000"})
+
+
+class WarningLog:
+    """counts scipy IntegrationWarnings raised inside oqupy/bath_correlations.py, per phase"""
+
+    def __init__(self):
+        self.counts = {}
+        self.messages = {}
+
+    def __call__(self, phase):
+        return _WarnCtx(self, phase)
+
+
+class _WarnCtx:
+    def __init__(self, log, phase):
+        self.log, self.phase = log, phase
+
+    def __enter__(self):
+        import warnings
+        self.cm = warnings.catch_warnings(record=True)
+        self.rec = self.cm.__enter__()
+        warnings.simplefilter("always")
+        return self
+
+    def __exit__(self, *a):
+        from scipy.integrate import IntegrationWarning
+        n = 0
+        for w in self.rec:
+            if issubclass(w.category, IntegrationWarning):
+                n += 1
+                first = str(w.message).split(".")[0][:70]
+                self.log.messages[first] = self.log.messages.get(first, 0) + 1
+        self.log.counts[self.phase] = self.log.counts.get(self.phase, 0) + n
+        return self.cm.__exit__(*a)
+
+
 # --- CustomCorrelations with a simple callable: C(tau) = a e^(-lam tau) --------------------
 
 def simple_corr(a, lam):
@@ -442,6 +546,30 @@ def correspondence(res, tier, rng):
     def mark(what):
         marks.append("%s %.1fs" % (what, time.time() - t_start))
 
+    wlog = WarningLog()
+    open_ctx = []
+
+    def phase(name):
+        """IntegrationWarnings raised from here on are counted under `name`"""
+        if open_ctx:
+            open_ctx.pop().__exit__(None, None, None)
+        if name is not None:
+            c = wlog(name)
+            c.__enter__()
+            open_ctx.append(c)
+
+    cfg_eps, cfg_lim = oqupy.config.INTEGRATE_EPSREL, oqupy.config.SUBDIV_LIMIT
+    res.notes.append("oqupy.config: INTEGRATE_EPSREL = %r, SUBDIV_LIMIT = %r" % (cfg_eps, cfg_lim))
+
+    # ---- (f) late times with the library's default quadrature arguments ---------------------
+    for key, bad in oracle_late(wlog):
+        res.case(key + " #%d" % res.cases, True)
+        res.count("late-time:" + key.split(":")[1].strip())
+        if bad is not None:
+            res.disagree(key, bad)
+    mark("(f) late times, default arguments")
+    phase("(a) shape calls")
+
     points = list(QUICK_POINTS)
     if tier != "quick":
         points += [random_point(rng) for _ in range(30)]
@@ -478,6 +606,7 @@ def correspondence(res, tier, rng):
                     res.disagree("Matsubara 2D integral is not a real float",
                                  {"point": pstr(pt), "shape": shape, "value": repr(v)})
     mark("(a) real shape calls")
+    phase(None)
     # ---- (e) integrand closures and spectral density in binary64 -------------------------------
     nclos = 6 if tier == "quick" else 30
     for (pt, obj, dt) in objs[:nclos]:
@@ -516,6 +645,8 @@ def correspondence(res, tier, rng):
                         which, "zeroT" if T == 0 else ("guard" if x == 0.0 else "thermal")))
                 lines.append("sd %s %s %s %s %s" % (ct, bits(alpha), bits(zeta), bits(wc), bits(w)))
                 checks.append(("sd", (pstr(pt), w), complex(scratch.spectral_density(w)), None, 0))
+    lines.append("config")
+    checks.append(("config", (), "%s %d true" % (rat(cfg_eps), cfg_lim), None, 0))
     lines.append("sd lorentzian %s %s %s %s" % (bits(1.0), bits(1.0), bits(1.0), bits(1.0)))
     try:
         PowerLawSD(1.0, 1.0, 1.0, "lorentzian")
@@ -535,6 +666,12 @@ def correspondence(res, tier, rng):
             res.case(line, True, sample)
             if got != val:
                 res.disagree("cutoff type acceptance differs", {"impl": val, "model": got})
+            continue
+        if kind == "config":
+            res.case(line, True, sample)
+            if got != val:
+                res.disagree("oqupy.config values differ from the regenerated constants",
+                             {"imported": val, "regenerated": got})
             continue
         if kind == "shape":
             res.case(line, nlog >= 2, sample)
@@ -566,6 +703,7 @@ def correspondence(res, tier, rng):
                              {"meta": repr(meta), "impl": repr(val), "model": repr(m), "scale": scale})
 
     # ---- (b) shapes vs direct integration of correlation() --------------------------------
+    phase("(b) direct integration")
     nb = 8 if tier == "quick" else len(objs)
     per = 3 if tier == "quick" else 5
     unconv = 0
@@ -595,6 +733,7 @@ def correspondence(res, tier, rng):
         res.notes.append("%d cells skipped: the Gauss-Legendre oracle did not converge" % unconv)
 
     mark("(b) direct integration")
+    phase("(c) tiling")
     # ---- (c) tiling on the real code -------------------------------------------------------
     for (pt, obj, dt) in objs[:(6 if tier == "quick" else len(objs))]:
         n = rng.choice([2, 3, 4, 5])
@@ -606,6 +745,7 @@ def correspondence(res, tier, rng):
                          {"point": pstr(pt), "n": n, "sum": repr(tot), "whole": repr(whole)})
 
     mark("(c) tiling")
+    phase("(d) symmetries")
     # ---- (d) symmetry, positivity, reality, PowerLaw == Custom, CustomCorrelations ----------
     for (pt, obj, dt) in objs[:(8 if tier == "quick" else len(objs))]:
         alpha, zeta, wc, ct, t_over, _ = pt
@@ -649,6 +789,7 @@ def correspondence(res, tier, rng):
                     res.disagree("Matsubara integral is not a finite real number",
                                  {"point": pstr(pt), "value": repr(x)})
     mark("(d) symmetries")
+    phase(None)
     ncc = 3 if tier == "quick" else 12
     for _ in range(ncc):
         a = complex(rng.uniform(0.2, 2.0), rng.uniform(-1.0, 1.0))
@@ -675,6 +816,15 @@ def correspondence(res, tier, rng):
                              + modes_key(label, shape), bad)
     mark("CustomCorrelations")
     res.notes.append("correspondence timing (cumulative): " + "; ".join(marks))
+    for ph, n in sorted(wlog.counts.items()):
+        res.count("IntegrationWarning:" + ph, n)
+    res.notes.append("scipy IntegrationWarnings raised inside correlation()/eta_function(): "
+                     + ", ".join("%s: %d" % kv for kv in sorted(wlog.counts.items()))
+                     + (" | " + "; ".join("%dx %s" % (n, m) for m, n in sorted(wlog.messages.items()))
+                        if wlog.messages else ""))
+    if wlog.counts.get("late-default", 0):
+        res.disagree("IntegrationWarning in a late-time call with the default quadrature arguments "
+                     "(none on the unchanged tree)", {"count": wlog.counts["late-default"]})
 
 
 # ---------------------------------------------------------------------------
@@ -689,6 +839,11 @@ def search(res, rng=None, budget_points=None):
     if budget_points:
         points = points[:budget_points]
     seen = set()
+    # late times with the default quadrature arguments
+    for key, bad in oracle_late(WarningLog()):
+        if bad is not None and key not in seen:
+            seen.add(key)
+            res.fail(key, bad)
     # CustomCorrelations: finite-mode baths, commensurate and incommensurate frequencies
     for (label, d, modes, temp) in mode_cases(res.tier, rng):
         for (shape, t1, t2) in mode_cells(d, rng, 7):
@@ -759,6 +914,14 @@ def replay_case(res, payload):
     """re-judge one stored failing input (corpus/C12/*.json, --replay) on the real code"""
     fi = payload.get("failing_input", payload)
     key = payload.get("key", "")
+    if key.startswith("late-time"):
+        again = False
+        for k, bad in oracle_late(WarningLog()):
+            if bad is not None and k == key:
+                res.fail(k, bad)
+                again = True
+                break
+        return again
     if fi.get("class") == "CustomCorrelations" and "modes_(omega,g)" in fi:
         modes = [tuple(m) for m in fi["modes_(omega,g)"]]
         bad = oracle_modes(fi.get("kind", "?"), fi["delta"], modes, fi["temperature"], fi["shape"],
@@ -795,7 +958,11 @@ def run(tier, seed, replay):
         "and with finite sums of modes g^2(coth cos - i sin) whose frequencies are incommensurate "
         "or commensurate (2 pi n/delta, pi n/delta) with the cell vs exact cell integrals and "
         "an independent dblquad; (e) generated integrand closures in complex binary64 vs the "
-        "captured Python closures on both sides of the overflow guard.  Distinct = distinct "
+        "captured Python closures on both sides of the overflow guard; (f) late times (cutoff*tau "
+        "up to 1500 hard, 60 exponential, 400 gaussian; hard-cutoff cells at time_1 = 250, 300) "
+        "with the library's DEFAULT epsrel/subdiv_limit vs the same call with epsrel=1e-10, "
+        "subdiv_limit=4000 and the T=0 closed forms (1e-8), oqupy.config values vs the "
+        "regenerated constants; IntegrationWarnings counted per phase.  Distinct = distinct "
         "protocol line / oracle call; non-trivial = a shape call that used >= 2 eta values, any "
         "integrand/oracle evaluation.")
     res.assumptions = [
@@ -805,6 +972,9 @@ def run(tier, seed, replay):
         "numpy/libm exp, cos, sin, pow agree with Lean's Float functions to 1e-12 relative",
         "binary64 model for the time arguments: round-to-nearest-even, no overflow/subnormal",
         "a spectral density j(omega) that is real",
+        "nothing is assumed about the values of INTEGRATE_EPSREL / SUBDIV_LIMIT: they are "
+        "regenerated and recorded, and their adequacy is judged numerically by (f) at points the "
+        "unchanged code (2**-26, 256) meets to 1e-12 without any IntegrationWarning",
     ]
     res.not_shown = [
         "accuracy of QUADPACK (quad, dblquad): the eta_function / correlation values are taken "
@@ -812,6 +982,10 @@ def run(tier, seed, replay):
         "default epsabs=1.49e-8, so for alpha <~ 1e-3 the requested epsrel is not reached "
         "(relative errors up to 3e-3 at alpha=1e-6), and a silent QAGI misestimate of 0.9% in "
         "Im eta at T/cutoff=70 (gaussian, zeta=3)",
+        "late times beyond the range of (f): on the unchanged tree correlation() and the cells "
+        "already lose all relative accuracy (QUADPACK reports failure) for the exponential cutoff "
+        "at cutoff*tau >= 100-200 (20 % at 200, factor 500 at 400; up to 5 % of C(0) in absolute "
+        "terms) and for the gaussian cutoff at cutoff*tau >= 800",
         "the Gamma-function closed form of C(tau) at T=0 (exponential cutoff) is used only as a "
         "search oracle, not proved",
         "differentiation under the omega-integral: that the omega-integral of the eta kernel is "
